@@ -36,6 +36,7 @@ PeaksClause(c) ==
           THEN "centroid_column_is_centroid_func_of_the_peak_window"
      ELSE "ok"
 \* star finders: rows as records of fixed-point ints; cfg gives the bounds
+SS == 1024      \* fixed point of the star-finder rows
 InR(x, lo, hi) == lo <= x /\ x <= hi
 StarClause(c) ==
   LET n == Len(c.rows) IN
@@ -51,6 +52,12 @@ StarClause(c) ==
   ELSE IF c.brightest > 0 /\ c.fluxes_sorted # SubSeq(c.all_fluxes_sorted, 1, Min({c.brightest, Len(c.all_fluxes_sorted)})) THEN "brightest_keeps_the_largest_fluxes"
   \* every centroid lies within the kernel footprint of a detected peak (half-sizes in S units) or of a supplied coordinate
   ELSE IF \E k \in 1..n : ~\E j \in 1..Len(c.peaks) : Abs(c.rows[k].x - c.peaks[j][1]) <= c.khx /\ Abs(c.rows[k].y - c.peaks[j][2]) <= c.khy THEN "centroid_within_kernel_of_a_peak"
+  \* every centroid lies on the frame ([-1/2, n - 1/2] per axis)
+  ELSE IF \E k \in 1..n : c.rows[k].x < -(SS \div 2) \/ c.rows[k].x > c.w \/ c.rows[k].y < -(SS \div 2) \/ c.rows[k].y > c.h THEN "centroid_on_the_frame"
+  \* a row that belongs to an isolated true source (within 3 px of it) is centred on it (within 1.2 px)
+  ELSE IF \E k \in 1..n, j \in 1..Len(c.truth) :
+            LET dx == Abs(c.rows[k].x - c.truth[j][1])  dy == Abs(c.rows[k].y - c.truth[j][2]) IN
+            dx <= 3 * SS /\ dy <= 3 * SS /\ (dx > (12 * SS) \div 10 \/ dy > (12 * SS) \div 10) THEN "centroid_on_its_isolated_source"
   \* separation: no two returned sources closer than min_separation (squared, S^2 units scaled down by 64 to stay within 32 bits)
   ELSE IF c.minsep2 > 0 /\ \E a, b \in 1..n : a < b /\
             ((c.rows[a].x - c.rows[b].x) \div 8) * ((c.rows[a].x - c.rows[b].x) \div 8) + ((c.rows[a].y - c.rows[b].y) \div 8) * ((c.rows[a].y - c.rows[b].y) \div 8) < c.minsep2 - c.septol THEN "sources_separated_by_min_separation"
